@@ -15,6 +15,7 @@ from ..core import check, Violation
 from ..sim import net as simnet
 
 ID = "C06"
+IMPORTS = ['rig.machine_control.scp_connection']
 LEVEL = "fault_enumeration"
 TECHNIQUE = ("offline event-log checker (exactly-once callbacks, reply "
              "identity, retransmission count/spacing, window bound, outcome "
